@@ -58,6 +58,8 @@ type opRec struct {
 	// unacked: resolved (applied or dropped) without a result because its stream died.
 	unacked bool
 	seq     int
+	// electionFail: FAILED while the session may not have been the primary (concurrent families)
+	electionFail bool
 }
 
 type session struct {
@@ -72,6 +74,9 @@ type session struct {
 	closed  bool
 	// last election id reported by the server on this stream
 	lastReported *spb.Uint128
+	// responses collected by a concurrently running client task, replayed later
+	pendingResp []*spb.ModifyResponse
+	announced   [][2]uint64
 }
 
 // env is the state of one simulated run.
@@ -97,6 +102,9 @@ type env struct {
 	noKnownSoft   bool
 	collecting    int
 	pendingAbort  bool
+	// propOverride: attribute every violation to this property (families whose
+	// property subsumes the others', e.g. C11 "... the installed entries are exactly those acknowledged").
+	propOverride string
 }
 
 func (e *env) probe(name string) { e.sim.Probe(name) }
@@ -106,6 +114,10 @@ func (e *env) probe(name string) { e.sim.Probe(name) }
 // Inside a checkpoint (a batch of independent checks at one quiescent point)
 // every check runs and the run is aborted at the end of the batch.
 func (e *env) report(prop, class, sig, detail string, soft bool) {
+	if e.propOverride != "" {
+		class = prop + "-" + class
+		prop = e.propOverride
+	}
 	v := Violation{Prop: prop, Class: class, Sig: sig, Detail: detail, Step: e.step}
 	if e.known != nil {
 		v.Known = e.known.Match(v)
@@ -334,6 +346,13 @@ func (e *env) applyVerdict(rec *opRec, res *spb.AFTResult, foreign bool) {
 		if rec.state == opHeld {
 			e.probe("held operation resolved later")
 		}
+		if v == VEither && en != nil {
+			e.probe("operation of unspecified validity was programmed")
+			en.Loose = op.GetOp() != spb.AFTOperation_DELETE
+		}
+		if en == nil {
+			return
+		}
 		e.model.Apply(op, en)
 		rec.state = opProgrammed
 		rec.rib++
@@ -365,6 +384,11 @@ func (e *env) applyVerdict(rec *opRec, res *spb.AFTResult, foreign bool) {
 		case VFail, VEither:
 			if rec.state == opHeld {
 				e.probe("held operation failed on retry")
+			}
+			if v == VEither {
+				e.probe("operation of unspecified validity was rejected")
+			} else if rec.state != opHeld {
+				e.probe("invalid operation rejected in-band")
 			}
 		case VProgram:
 			if op.GetOp() == spb.AFTOperation_DELETE {
@@ -499,6 +523,9 @@ func (e *env) reportDiffs(prop, via string, ds []Diff) {
 		case "extra":
 			e.report(prop, "entry-extra", d.Key.Kind.String()+" entry present that no acknowledged operation installed ("+via+")", d.String(), false)
 		case "payload":
+			if en := e.model.Tab[d.Key]; en != nil && en.Loose {
+				continue // content of an Unspecified operation: not predicted
+			}
 			p := prop
 			if e.sc.Cfg.FullPayl {
 				// full-field payload families belong to C07: field fidelity of the
